@@ -69,12 +69,22 @@ def one(job):
     import random
     import logging
     logging.disable(logging.CRITICAL)
-    seed, ntls, nquic = job
+    seed, ntls, nquic = job[:3]
     rng = random.Random(seed)
     def hook(r, version):
         # an encrypted alert in mid-connection (TLS <= 1.2), the peer's data in flight follows
         return {"mid_alert": (r.randrange(1, 3), r.randrange(2))} if version != "tls13" and r.random() < 0.35 else {}
-    mx = e2e.Mixed(rng, [e2e.random_combo(rng) for _ in range(ntls)], n_quic=nquic, noise=False, shape_hook=hook)
+    if len(job) > 3 and job[3] == "deflate":
+        # connections up to TLS 1.2 that negotiated record compression (RFC 3749): the compression history of a direction starts in
+        # its encrypted Finished record, so that record must go through the decryptor whether or not it is exported
+        combos = []
+        while len(combos) < ntls:
+            cb = e2e.random_combo(rng)
+            if cb[1] != "tls13" and (cb[1] in ("tls11", "tls12") or rng.random() < 0.3):
+                combos.append(cb)
+        mx = e2e.Mixed(rng, combos, n_quic=nquic, noise=False, shape_hook=lambda r, version: {"deflate": True})
+    else:
+        mx = e2e.Mixed(rng, [e2e.random_combo(rng) for _ in range(ntls)], n_quic=nquic, noise=False, shape_hook=hook)
     kl = mx.keylog_text()
     cap = mx.capture()
     off, on = tool.run(cap, kl), tool.run(cap, kl, ["-a"])
@@ -134,11 +144,72 @@ def one(job):
     return fails, mx.describe(), blob, added
 
 
+def one_scripted(job):
+    """QUIC histories the random generator does not reach: a datagram that carries handshake bytes only (the server's NewSessionTicket in
+    1-RTT CRYPTO frames, RFC 9001 4.1.3 — exported with -a only) and, on the SAME capture tick, the peer's datagram with stream data
+    (datagrams of opposite directions may share a timestamp; the property tells datagrams of one direction apart by their timestamps)."""
+    import random
+    import logging
+    import gen_quic
+    logging.disable(logging.CRITICAL)
+    seed = job[0]
+    rng = random.Random(seed)
+    suite = [0x1301, 0x1302, 0x1303, 0x1304][seed % 4]
+    c = gen_quic.QConn(rng, suite=suite, cport=41000 + seed % 20000, scid_c_len=rng.choice([0, 8]), scid_s_len=rng.choice([4, 8, 16]))
+    c.handshake()
+    offs, coff = {0: 0, 1: 0}, {0: 0, 1: 0}
+
+    def stream(d, dt=None):
+        b = rng.randbytes(rng.randrange(1, 200))
+        c.q_1rtt(d, gen_quic.f_stream(0, offs[d], b))
+        offs[d] += len(b)
+        c.flush(d, b, dt=dt)
+
+    def ticket(d, dt=None):
+        m = gen_quic.hs(4, rng.randbytes(rng.randrange(20, 120)))
+        c.q_1rtt(d, gen_quic.f_crypto(coff[d], m))
+        coff[d] += len(m)
+        c.flush(d, dt=dt)
+    stream(0)
+    stream(1)
+    for _ in range(rng.randrange(1, 4)):
+        ticket(1)
+        stream(0, dt=0)                    # the client's request is captured on the tick of the server's ticket
+        stream(1)
+        if rng.random() < 0.5:
+            stream(0)
+            ticket(1, dt=0)                # … and the other way round
+            stream(1)
+    cap = wire.pcapng(c.items)
+    kl = "\n".join(c.keylog_lines()) + "\n"
+    off, on = tool.run(cap, kl), tool.run(cap, kl, ["-a"])
+    fails, added = [], 0
+    blob = {"capture_hex": cap.hex(), "keylog": kl, "job": list(job)}
+    for name, r in (("without -a", off), ("with -a", on)):
+        if r.crashed:
+            fails.append(f"{name}: {r.signature()}")
+    if not fails:
+        try:
+            a, b = quic_datagrams(off.out, c), quic_datagrams(on.out, c)
+            for d in (0, 1):
+                added += len(b"".join(b[d])) - len(b"".join(a[d]))
+                if not chunks_in_order(a[d], b[d]):
+                    fails.append(f"quic-stream-data-changed: direction {d}: stream chunks exported without -a do not appear in order (and direction) with -a")
+        except wire.FrameError as e:
+            fails.append(f"bad-frame:{e}")
+    return fails, {"quic": "scripted: NewSessionTicket datagrams sharing a tick with the peer's stream data", "suite": f"{suite:04X}"}, blob, added
+
+
 def explore(ctx, scale=1):
     rng = ctx.rng
     n = ctx.n(30, 1500) * scale
     jobs = [(rng.getrandbits(48), *([(1, 0), (0, 1), (2, 1), (1, 1), (1, 0)][i % 5])) for i in range(n)]
     results = tool.pmap(one, jobs, procs=16 if ctx.thorough() else 8)
+    sjobs = [(rng.getrandbits(48), 0, 1, "scripted") for _ in range(ctx.n(6, 60) * scale)]
+    results += tool.pmap(one_scripted, sjobs, procs=16 if ctx.thorough() else 8)
+    djobs = [(rng.getrandbits(48), 1 + k % 2, 0, "deflate") for k in range(ctx.n(8, 80) * scale)]
+    results += tool.pmap(one, djobs, procs=16 if ctx.thorough() else 8)
+    jobs = jobs + sjobs + djobs
     o = ctx.oracle.setdefault("with-vs-without-a", {"runs": 0, "violations": 0})
     for job, (fails, desc, blob, added) in zip(jobs, results):
         o["runs"] += 2
@@ -179,7 +250,8 @@ def run(ctx):
 
 
 def replay(ctx, obj):
-    fails = one(tuple(obj["case"]["job"]))[0]
+    job = tuple(obj["case"]["job"])
+    fails = (one_scripted(job) if len(job) > 3 and job[3] == "scripted" else one(job))[0]
     for f in fails:
         print("REPLAY-FAIL", f)
     print("REPLAY", "fails" if fails else "passes")
